@@ -77,4 +77,34 @@ for ct, t, b, p in uints:
     write_contract(ct, t, False)
 for ct, t, b, p in sints:
     write_contract(ct, t, True)
+# --- EncodingIO<Int>::Read over the reference source: accepts exactly the classes of the right signedness no wider
+# than the destination, consumes prefix + payload, the value is the little-endian payload zero- / sign-extended
+# (bit k of the result against the source bytes through the ghost index), errors: UnexpectedEncodingType for a class
+# that is not allowed, ReadLimitReached when the data ends, any injected fault verbatim.
+out.append("c #define SR_PRE(r) (FRESH(r) && (r)->failed == 0 && (r)->fail_code >= 1 && (r)->fail_code <= 18 && (r)->len <= VT_MAXLEN && (r)->pos <= (r)->len && FRESHN((r)->src, (r)->len))")
+def read_contract(ct, t, b, signed):
+    key = "nop::EncodingIO<%s>::Read<vt::SpecReader>" % ct
+    DL = ("VT_DECLEN_INT" if signed else "VT_DECLEN_UINT")
+    dl = "vt_dl"   # ghost: payload length selected by the prefix byte at the reader's position (0 = class not allowed)
+    nofault = "(OLD(reader->fail_at) - OLD(reader->calls) >= 2)"
+    avail = "(reader->len - OLD(reader->pos))"
+    cl = ["requires SR_PRE(reader) && FRESH(value)",
+          "requires reader->pos < reader->len ==> (vt_p == reader->src[reader->pos] && vt_dl == %s(vt_p, %d))" % (DL, b),
+          "assigns *value, reader->pos, reader->failed, reader->calls, reader->after_fail",
+          "ensures ERR(RET) == 0 ==> (reader->failed == 0 && %s >= 1 && %s != 0 && reader->pos == OLD(reader->pos) + %s)" % (avail, dl, dl),
+          "ensures (ERR(RET) == 0 && %s == 1) ==> *value == (%s)(%s)vt_p" % (dl, ct, "signed char" if signed else "unsigned char"),
+          "ensures (ERR(RET) == 0 && %s > 1 && vt_k < %s - 1) ==> (unsigned char)(((unsigned long)*value) >> (8 * (vt_k & 7))) == reader->src[OLD(reader->pos) + 1 + vt_k]" % (dl, dl),
+          ("ensures (ERR(RET) == 0 && %s > 1 && vt_k >= %s - 1 && vt_k < %d) ==> (unsigned char)(((unsigned long)(long)*value) >> (8 * (vt_k & 7))) == ((reader->src[OLD(reader->pos) + %s - 1] & 0x80) ? 0xff : 0x00)" % (dl, dl, b, dl)) if signed else
+          ("ensures (ERR(RET) == 0 && %s > 1 && vt_k >= %s - 1 && vt_k < %d) ==> (unsigned char)(((unsigned long)*value) >> (8 * (vt_k & 7))) == 0" % (dl, dl, b)),
+          "ensures (%s && %s >= 1 && %s == 0) ==> ERR(RET) == E_UnexpectedEncodingType" % (nofault, avail, dl),
+          "ensures (%s && (%s == 0 || (%s != 0 && %s < %s))) ==> ERR(RET) == E_ReadLimitReached" % (nofault, avail, dl, avail, dl),
+          "ensures (%s && %s >= 1 && %s != 0 && %s >= %s) ==> ERR(RET) == 0" % (nofault, avail, dl, avail, dl),
+          "ensures (ERR(RET) != 0 && ERR(RET) != E_UnexpectedEncodingType) ==> (reader->failed == ERR(RET) && reader->after_fail == OLD(reader->after_fail))"]
+    out.append("contract %s\n%s" % (key, "".join("  %s\n" % c for c in cl)))
+    out.append("job cs_fn_read_%s\n  props C04 C10\n  pre vt_k = nondet_ulong(); vt_p = nondet_uchar(); vt_dl = nondet_ulong();\n  enforce %s\n  timeout 900\n" % (t, key))
+out.append("c unsigned char vt_p; unsigned long vt_dl;")
+for ct, t, b, p in uints:
+    read_contract(ct, t, b, False)
+for ct, t, b, p in sints:
+    read_contract(ct, t, b, True)
 print("\n".join(out))
